@@ -301,7 +301,10 @@ template <class T> static void same_storage_forms(Groups &g, const char *tn, con
 // comparison of wide buffers on units that are not bytes (C06): unit order, not byte order
 template <class T> static void op_cmpw(int bits, const std::vector<long long> &a, const std::vector<long long> &b) {
     if (!SH.take()) return;
-    auto jl = [](const std::vector<long long> &v) { std::string r = "["; for (size_t i = 0; i < v.size(); ++i) { if (i) r += ','; r += std::to_string(v[i]); } return r + "]"; };
+    // 32-bit units are logged as two 16-bit halves each (TLC integers are 32-bit signed): the order of the flattened
+    // sequences is the order of the unit sequences (high half first; a proper prefix stays a proper prefix)
+    auto jl = [bits](const std::vector<long long> &v) { std::string r = "["; for (size_t i = 0; i < v.size(); ++i) { if (i) r += ',';
+        if (bits == 32) { r += std::to_string((v[i] >> 16) & 0xFFFF); r += ','; r += std::to_string(v[i] & 0xFFFF); } else r += std::to_string(v[i]); } return r + "]"; };
     Out h; begin(h, "cmpw"); h.c(',').k("w").i(bits).c(',').k("a").s(jl(a)).c(',').k("b").s(jl(b));
     set_cur(SH.idx - 1, h.b + "}");
     std::basic_string<T> wa, wb; for (long long x : a) wa += (T)x; for (long long x : b) wb += (T)x;
@@ -320,8 +323,11 @@ static void gen_cmpw() {
     auto seqs = [](const std::vector<long long> &al) { std::vector<std::vector<long long>> r = {{}}; for (long long x : al) r.push_back({x}); for (long long x : al) for (long long y : al) r.push_back({x, y}); return r; };
     auto s16 = seqs({0, 0x41, 0xFF, 0x100, 0x7FFF, 0x8000, 0xFFFF});
     for (auto &a : s16) for (auto &b : s16) op_cmpw<char16_t>(16, a, b);
-    auto s32 = seqs({0, 0x41, 0xFF, 0x100, 0xFFFF, 0x10000, 0x10FFFF, 0x7FFFFFFF});
-    for (auto &a : s32) for (auto &b : s32) { op_cmpw<char32_t>(32, a, b); op_cmpw<wchar_t>(sizeof(wchar_t) * 8, a, b); }
+    auto s32 = seqs({0, 1, 0x41, 0xFFFF, 0x10000, 0x10FFFF, 0x7FFFFFFF, 0x80000000LL, 0x80000001LL, 0xFFFFFFFFLL});
+    // wchar_t is a SIGNED 32-bit type here and std::char_traits<wchar_t> orders it as such: units >= 0x80000000 (no code
+    // points anyway) are given to the unsigned char32_t buffers only - "unit order" is unambiguous below that
+    auto small = [](const std::vector<long long> &v) { for (long long x : v) if (x > 0x7FFFFFFFLL) return false; return true; };
+    for (auto &a : s32) for (auto &b : s32) { op_cmpw<char32_t>(32, a, b); if (small(a) && small(b)) op_cmpw<wchar_t>(sizeof(wchar_t) * 8, a, b); }
 }
 
 static void op_cmp(const Bytes &a, const Bytes &b) {
@@ -810,6 +816,12 @@ int main(int argc, char **argv) {
             for (const Bytes &hs : {Bytes(1, (char)(c ^ 0x20)), Bytes{(char)(c ^ 0x20), (char)c}, Bytes{(char)(c ^ 0x80), (char)(c ^ 0x20), 'x', (char)c, (char)(c ^ 0x20)}})
                 for (int ci = 0; ci < 2; ++ci) { op_find(hs, n, 0, ci); op_findlast(hs, n, ~0ull, ci); op_affix(hs, n, ci); }
         }
+        // every byte value inside a needle of 8+ bytes (word-at-a-time comparisons), against its bit-5 twin in the text
+        for (int c = 0; c < 256; ++c) for (int pos : {0, 3, 7, 9}) {
+            Bytes n = "abcdefghijkl"; n[pos] = (char)c; Bytes tw = n; tw[pos] = (char)(c ^ 0x20);
+            Bytes hs = Bytes("xy") + tw + "--" + tw.substr(0, 11) + "!";
+            for (int ci = 0; ci < 2; ++ci) { op_find(hs, n, 0, ci); if (pos == 7) { op_findlast(hs, n, ~0ull, ci); op_affix(tw, n, ci); } }
+        }
         for (auto &ln : long_needles()) for (int ci = 0; ci < 2; ++ci) {
             op_find(ln.first, ln.second, 0, ci); op_findlast(ln.first, ln.second, ~0ull, ci); op_affix(ln.first, ln.second, ci);
         }
@@ -859,6 +871,9 @@ int main(int argc, char **argv) {
             for (unsigned long long mx : {0ull, 1ull, 2ull, (unsigned long long)s.size(), ~0ull}) op_split(s, sep, mx, ci);
             for (auto &to : tos) op_replace(s, sep, to, ci);
         }
+        // explicit limits that are huge but not the "no limit" value: a bound on the number of cuts, never a size to allocate
+        for (const char *t : {"", "a", "aAaa", "a,b,,c"}) for (const char *sp : {"a", ",", "x"}) for (int ci = 0; ci < 2; ++ci)
+            for (unsigned long long mx : {~0ull - 1, 1ull << 63, 1ull << 62, 1ull << 60, 1ull << 58, 1ull << 40, 1ull << 32, (1ull << 32) - 1, 1ull << 31, 3ull}) op_split(t, sp, mx, ci);
         for (auto &s : strs) for (auto &d : needles) if (nulfree(d)) op_tokenize(s, d);
         for (int c = 0; c < 256; ++c) { Bytes n2{'x', (char)c}; Bytes hs{'x', (char)(c ^ 0x20), '-', 'X', (char)c, 'x', (char)(c ^ 0x80)};
             for (int ci = 0; ci < 2; ++ci) { op_split(hs, n2, ~0ull, ci); op_replace(hs, n2, "#", ci); } }
